@@ -37,7 +37,7 @@ ENGINE = "e4"
 SHRINK_LISTS = [("ops",), ("program", "ops")]
 REAL = ["pandapipes.create (every create_* function), pandapipes.toolbox (reindex/drop/fuse/select), pipeflow (real)"]
 STUB = []
-TIGHT = dict(tol_p=1e-10, tol_m=1e-10, tol_T=1e-8, tol_res=1e-5, iter=100)  # residual floor ~1e-7: accuracy comes from the step tolerances
+TIGHT = dict(tol_p=1e-8, tol_m=1e-8, tol_T=1e-7, tol_res=1e-5, iter=300)  # residual floor ~1e-7: accuracy comes from the step tolerances
 
 
 def generate(seed, tier, prop):
@@ -866,6 +866,25 @@ def _solve(net, meta):
         return "exc:" + type(e).__name__
 
 
+def _almost_converged(net):
+    """A run that used up its budget while creeping towards the solution (flowless loops converge only linearly
+    and stall at the round-off floor): not a verdict difference worth the name."""
+    ir = net.get("_internal_results", {})
+    last = [v[-1] for k, v in ir.items() if isinstance(v, list) and v]
+    return bool(last) and all(np.isfinite(x) and x < 1e-5 for x in last)
+
+
+def _ill_posed(results_by_tag):
+    """A pump / compressor without flow sits on the discontinuity of its characteristic (shut-off head vs. no
+    lift for reverse flow): the sign of a round-off flow decides pressures downstream."""
+    for tag, row in results_by_tag.items():
+        if tag.split("#")[0] in ("pump", "compressor"):
+            m = row.get("mdot_from_kg_per_s")
+            if m is not None and np.isfinite(m) and abs(m) < netmodel.ZERO_FLOW_ABS:
+                return True
+    return False
+
+
 def _flowless_tags(net):
     fl = netmodel.flowless_junctions(net)
     if "junction" not in net or "vtag" not in net.junction:
@@ -912,7 +931,7 @@ def _cmp_results(a, b, only=None, skip_t=()):
             if isinstance(x, float) and isinstance(y, float):
                 if np.isnan(x) and np.isnan(y):
                     continue
-                atol = max(netmodel._atol_for(c, 1e-9), 1e-12 * colmax.get((tag.split("#")[0], c), 0.0))
+                atol = max(netmodel._atol_for(c, 1e-7), 1e-12 * colmax.get((tag.split("#")[0], c), 0.0))
                 if np.isnan(x) != np.isnan(y) or not np.isclose(x, y, rtol=1e-7, atol=atol):
                     diffs.append("%s.%s" % (tag.split("#")[0], c))
     return sorted(set(diffs))
@@ -1052,8 +1071,12 @@ def _exec_c17(trace, res):
             # (only every other time: a later operation must also cope with result tables that were
             # relabelled but not recalculated)
             out = _solve(net, meta)
-            if out != "ok":
+            if out == "nc" and _almost_converged(net):
+                res.count("probe:slow-convergence-verdict-skipped")
+            elif out != "ok":
                 res.violate("C17", "C17/relabelled-net-does-not-solve:%s@%s" % (out, kind), "", oi)
+            elif _ill_posed(base_res):
+                res.count("probe:ill-posed-flowless-pump")
             else:
                 d = _cmp_results(base_res, _results_by_tag(net), skip_t=_flowless_tags(net))
                 if d:
@@ -1274,9 +1297,15 @@ def _exec_c06(trace, res):
             res.count("probe:foreign-exception-both")
             continue
         if ref_out != out:
+            if {ref_out, out} == {"ok", "nc"} and _almost_converged(net):
+                res.count("probe:slow-convergence-verdict-skipped")
+                continue
             res.violate("C06", "C06/verdict-differs:%s-vs-%s" % (ref_out, out), label, vi)
             continue
         if ref_res is None:
+            continue
+        if _ill_posed(ref_res):
+            res.count("probe:ill-posed-flowless-pump")
             continue
         if var.get("resolve_after_permutation"):
             # history on ONE net object: solved, rows permuted in place (same lengths), solved again
